@@ -436,7 +436,7 @@ func init() {
 		ID: "C16", Level: "exploration", Parallel: 12, Batch: 1, MinConclusive: 40,
 		Rule: "sessions with deliveries, acknowledgements, saves, transient re-opens and dynamic-membership rebalances; GET /metrics is scraped at quiescent points, with server high seqnos scripted below / equal / above the tracked position, " +
 			"and while the stream is closed (library held inside AfterStreamStop). Oracle per scrape: per-vBucket gauges == tracked position and snapshot; lag == max(0, high sent in the scrape window - tracked); total == sum of the scrape's lags; " +
-			"kind counters within [delivered, delivered+reserved-key events]; member/size/range/count/active/rebalance == values in effect; counters never decrease inside a session; a scrape while closed returns. " +
+			"kind counters within [delivered, delivered+reserved-key events]; member/size/range/count/active/rebalance == values in effect; counters never decrease inside a session; a scrape while closed returns; renumbered: another member number in a group of unchanged size; scrape-across-close: a background scrape overlapping the close of a rebalance returns and does not crash the process. " +
 			"Non-trivial: a scrape with a vBucket whose high seqno is below the tracked one, or taken while closed, or after a re-open/rebalance; distinct = distinct abstract traces",
 		Assumptions: []string{"equalities only at quiescent scrapes (no ack/track/delivery inside the scrape window)", "cbsim answers the collection-aware GET_ALL_VB_SEQNOS used by the collector"},
 		Gen: func(seed int64, tier string) []drv.Scenario {
